@@ -392,6 +392,14 @@ func (fe *FuncEnc) findLoops() {
 	for i, h := range hs {
 		fe.loops[h].ordinal = i + 1
 	}
+	// an invariant given for a loop the function does not have would otherwise be ignored silently
+	if fe.c != nil {
+		for n := range fe.c.Loops {
+			if n > len(hs) {
+				fe.note("loop %d invariant ignored: the function has only %d loop(s) - the contract no longer matches the code", n, len(hs))
+			}
+		}
+	}
 }
 
 // loopTargets returns the distinct SSA address values written in the loop for
@@ -646,7 +654,9 @@ func (fe *FuncEnc) tryInv(env *Env, cl Clause, asInt bool) (t string, ok bool) {
 	defer func() {
 		if r := recover(); r != nil {
 			if ee, isEnc := r.(encErr); isEnc {
-				fe.note("loop invariant dropped, it no longer binds to the code: %s", string(ee))
+				if !cl.FromLoopAll {
+					fe.note("loop invariant dropped, it no longer binds to the code: %s", string(ee))
+				}
 				t, ok = "", false
 				return
 			}
@@ -865,7 +875,10 @@ func (fe *FuncEnc) loopSpec(li *loopInfo) *LoopSpec {
 		merged.Invs = append(merged.Invs, spec.Invs...)
 		merged.Decreases = spec.Decreases
 	}
-	merged.Invs = append(merged.Invs, fe.c.LoopAll...)
+	for _, cl := range fe.c.LoopAll {
+		cl.FromLoopAll = true // applies wherever it binds; not binding at some loop is expected
+		merged.Invs = append(merged.Invs, cl)
+	}
 	return merged
 }
 
